@@ -32,7 +32,7 @@ var (
 	c03Literals = "abcxyzABCXYZ019._-%/:?&= "
 )
 
-func flipCase(b byte) byte {
+func c03FlipCase(b byte) byte {
 	switch {
 	case 'a' <= b && b <= 'z':
 		return b - 32
@@ -43,7 +43,7 @@ func flipCase(b byte) byte {
 	return b
 }
 
-func randPrintable(r *rng, maxLen int) string {
+func c03RandPrintable(r *rng, maxLen int) string {
 	k := r.n(maxLen + 1)
 	var sb strings.Builder
 	for i := 0; i < k; i++ {
@@ -84,7 +84,7 @@ func c03Subject(r *rng, stored string, mut int) string {
 		if r.chance(1, 2) {
 			sb.WriteString(pick(r, []string{"http://", "https://x.", "a", "/", "x?y=", "ws://"}))
 		} else if r.chance(1, 2) {
-			sb.WriteString(randPrintable(r, 4))
+			sb.WriteString(c03RandPrintable(r, 4))
 		}
 	}
 	endPipe := false
@@ -97,7 +97,7 @@ func c03Subject(r *rng, stored string, mut int) string {
 		switch c {
 		case '*':
 			if r.chance(1, 3) {
-				sb.WriteString(randPrintable(r, 5))
+				sb.WriteString(c03RandPrintable(r, 5))
 			} else if r.chance(1, 2) {
 				sb.WriteString(pick(r, poolPaths))
 			}
@@ -116,7 +116,7 @@ func c03Subject(r *rng, stored string, mut int) string {
 			case !m():
 				sb.WriteByte(c)
 			case r.chance(1, 2):
-				sb.WriteByte(flipCase(c))
+				sb.WriteByte(c03FlipCase(c))
 			case r.chance(1, 3):
 				// dropped
 			case r.chance(1, 2):
@@ -166,7 +166,7 @@ func c03AccPattern(r *rng) string {
 
 		return p
 	default:
-		return genMaskPattern(r)
+		return c03GenMaskPattern(r)
 	}
 }
 
@@ -196,7 +196,7 @@ func genC03Acc(r *rng, n int, w *bufio.Writer) {
 			var u string
 			switch r.n(10) {
 			case 0:
-				u = randPrintable(r, 12)
+				u = c03RandPrintable(r, 12)
 			case 1:
 				u = pick(r, poolSchemes) + "://" + pick(r, poolDomains) + pick(r, poolPaths)
 			case 2, 3, 4:
